@@ -1101,6 +1101,9 @@ impl Vm {
 
     fn end_finally_impl(&mut self) -> Result<(), Error> {
         if self.handling_exception {
+            let exc_object = self.active_fiber().pending_exception;
+            self.active_fiber_mut().pending_exception = Value::None;
+            self.push(exc_object);
             self.unwind_stack()?;
         }
         let return_data = self.active_fiber_mut().take_return_data();
@@ -1553,9 +1556,15 @@ impl Vm {
         self.active_fiber_mut()
             .stack
             .truncate(handler.init_stack_size);
-        self.push(exc_object);
         self.active_fiber_mut().frames.truncate(handler.frame_count);
         self.handling_exception = handler.has_catch_block();
+        if self.handling_exception {
+            // No catch block: the finally block runs at the stack height of the normal path, the
+            // exception waits in the fiber until EndFinally re-raises it.
+            self.active_fiber_mut().pending_exception = exc_object;
+        } else {
+            self.push(exc_object);
+        }
         if !self.handling_exception {
             self.active_fiber_mut().error_ip = None;
         }
